@@ -567,4 +567,575 @@ theorem uniform_growth_seq_all_conserved (inps : List (Inp × (Nat → Rat))) :
 example : HasTargets f9Inp f9Assembly := by
   refine ⟨⟨0, rfl, by decide⟩, ⟨1, rfl, by decide⟩, trivial⟩
 
+
+/-! ### uniform growth over a sequence: heights scale by the product of the factors; a closed sequence
+(product 1: grow / hold / shrink back) restores heights, densities and masses -/
+
+/-- product over the steps of block `i`'s factor -/
+def prodG (inps : List (Inp × (Nat → Rat))) (i : Nat) : Rat := inps.foldr (fun p acc => p.2 i * acc) 1
+
+private theorem shape_get (a : List Block) (i : Nat) (b : Block) (hb : a[i]? = some b) :
+    (shape a)[i]? = some b.comps.length := by
+  simp [shape, List.getElem?_map, hb]
+
+/-- **any sequence of expansions, each uniform within every block** (the factors only need to be uniform
+over the solids a block really has — as they are when read from a stored prescription): block `i` ends at
+`(Π factors) · h`, every density is divided by the product, every mass is unchanged. -/
+theorem uniform_growth_seq_scaled (inps : List (Inp × (Nat → Rat))) :
+    ∀ (a : List Block), (∀ p ∈ inps, HasTargetsS p.1 0 (shape a)) → (∀ b, a[0]? = some b → b.zb = 0) →
+      (∀ p ∈ inps, ∀ i n, (shape a)[i]? = some n → ∀ k, k < n → p.1.g i k = p.2 i) → (∀ p ∈ inps, ∀ i, p.2 i ≠ 0) →
+      ∀ i b, i + 1 < a.length → a[i]? = some b →
+        ∃ b', (expandSeq (inps.map (·.1)) a)[i]? = some b' ∧ b'.h = prodG inps i * b.h ∧
+          ∀ (k : Nat) (c : Comp), b.comps[k]? = some c → ∃ c', b'.comps[k]? = some c' ∧
+            c'.nd * prodG inps i = c.nd ∧ c'.area = c.area ∧ mass b' c' = mass b c := by
+  induction inps with
+  | nil =>
+    intro a _ _ _ _ i b _ hb
+    refine ⟨b, hb, by simp [prodG], fun k c hc => ⟨c, hc, by simp [prodG], rfl, rfl⟩⟩
+  | cons p t ih =>
+    intro a hT h0 hu hγ i b hi hb
+    have hTp : HasTargets p.1 a := hT p List.mem_cons_self
+    have hγp := hγ p List.mem_cons_self
+    obtain ⟨b1, g1, _, g3, g4⟩ := uniform_growth_all_conserved p.1 a p.2 hTp h0
+      (fun i b hb k hk => hu p List.mem_cons_self i b.comps.length (shape_get a i b hb) k hk) hγp i b hi hb
+    obtain ⟨b', k1, k2, k3⟩ := ih (expandFrom p.1 none 0 a)
+      (fun q hq => by rw [shape_expandFrom]; exact hT q (List.mem_cons_of_mem _ hq))
+      (first_bottom_zero p.1 a hTp h0)
+      (fun q hq => by rw [shape_expandFrom]; exact hu q (List.mem_cons_of_mem _ hq))
+      (fun q hq => hγ q (List.mem_cons_of_mem _ hq))
+      i b1 (by rw [expandFrom_length]; exact hi) g1
+    have hprod : prodG (p :: t) i = p.2 i * prodG t i := rfl
+    refine ⟨b', by simpa [expandSeq] using k1, by rw [k2, g3, hprod]; ring, ?_⟩
+    intro k c hc
+    obtain ⟨c1, e1, e2, e3, e4⟩ := g4 k c hc
+    obtain ⟨c', f1, f2, f3, f4⟩ := k3 k c1 e1
+    refine ⟨c', f1, ?_, by rw [f3, e3], by rw [f4, e4]⟩
+    have hp := hγp i
+    rw [hprod]
+    have : c'.nd * (p.2 i * prodG t i) = (c'.nd * prodG t i) * p.2 i := by ring
+    rw [this, f2, e2]; field_simp
+
+/-- **a closed sequence** — the factors of every block multiply to exactly 1 (grow, hold with 1.0, shrink
+back; in any order, any number of steps) — **restores heights, densities and masses**. -/
+theorem uniform_closed_sequence_restores (inps : List (Inp × (Nat → Rat))) (a : List Block)
+    (hT : ∀ p ∈ inps, HasTargetsS p.1 0 (shape a)) (h0 : ∀ b, a[0]? = some b → b.zb = 0)
+    (hu : ∀ p ∈ inps, ∀ i n, (shape a)[i]? = some n → ∀ k, k < n → p.1.g i k = p.2 i) (hγ : ∀ p ∈ inps, ∀ i, p.2 i ≠ 0)
+    (hclosed : ∀ i, prodG inps i = 1) :
+    ∀ i b, i + 1 < a.length → a[i]? = some b →
+      ∃ b', (expandSeq (inps.map (·.1)) a)[i]? = some b' ∧ b'.h = b.h ∧
+        ∀ (k : Nat) (c : Comp), b.comps[k]? = some c → ∃ c', b'.comps[k]? = some c' ∧
+          c'.nd = c.nd ∧ c'.area = c.area ∧ mass b' c' = mass b c := by
+  intro i b hi hb
+  obtain ⟨b', h1, h2, h3⟩ := uniform_growth_seq_scaled inps a hT h0 hu hγ i b hi hb
+  refine ⟨b', h1, by rw [h2, hclosed i, one_mul], ?_⟩
+  intro k c hc
+  obtain ⟨c', e1, e2, e3, e4⟩ := h3 k c hc
+  exact ⟨c', e1, by rw [hclosed i, mul_one] at e2; exact e2, e3, e4⟩
+
+/-- grow by `γ`, hold (every factor exactly 1), shrink back by `1/γ`: a closed sequence -/
+theorem grow_hold_shrink_closed (i1 i2 i3 : Inp) (γ : Nat → Rat) (hγ : ∀ i, γ i ≠ 0) :
+    ∀ i, prodG [(i1, γ), (i2, fun _ => 1), (i3, fun i => 1 / γ i)] i = 1 := by
+  intro i
+  have := hγ i
+  simp only [prodG, List.foldr]
+  field_simp
+
+/-! ### one `ExpansionData` used for successive steps (`setAssembly` once, then per step
+`setExpansionFactors` + `axiallyExpandAssembly`) -/
+
+theorem assign_append (s : Store) : ∀ (keys : List Key) (fr : List Rat), assign s keys fr = assign [] keys fr ++ s := by
+  intro keys
+  induction keys generalizing s with
+  | nil => intro fr; simp [assign]
+  | cons k ks ih =>
+    intro fr
+    cases fr with
+    | nil => simp [assign]
+    | cons p ps =>
+      simp only [assign]
+      rw [ih ((k, p) :: s), ih [(k, p)]]
+      simp
+
+private theorem getFactor_cons_ne (s : Store) (k : Key) (p : Rat) (ib ic : Nat) (h : k ≠ (ib, ic)) :
+    getFactor ((k, p) :: s) ib ic = getFactor s ib ic := by
+  have : (k == (ib, ic)) = false := by simpa using h
+  simp [getFactor, this]
+
+private theorem getFactor_cons_eq (s : Store) (p : Rat) (ib ic : Nat) :
+    getFactor (((ib, ic), p) :: s) ib ic = p := by
+  simp [getFactor]
+
+/-- a call that does not list a component leaves its stored factor as it was -/
+theorem getFactor_assign_not_listed (ib ic : Nat) : ∀ (keys : List Key) (fr : List Rat) (s : Store),
+    (ib, ic) ∉ keys → getFactor (assign s keys fr) ib ic = getFactor s ib ic := by
+  intro keys
+  induction keys with
+  | nil => intro fr s _; simp [assign]
+  | cons k ks ih =>
+    intro fr s hk
+    cases fr with
+    | nil => simp [assign]
+    | cons p ps =>
+      simp only [assign]
+      have hne : k ≠ (ib, ic) := fun h => hk (by simp [h])
+      rw [ih ps ((k, p) :: s) (fun h => hk (List.mem_cons_of_mem _ h)), getFactor_cons_ne s k p ib ic hne]
+
+/-- **a listed component gets exactly the factor prescribed in this call — exactly 1.0 included, whatever
+was stored for it before** (components listed once) -/
+theorem getFactor_assign_listed (ib ic : Nat) : ∀ (keys : List Key) (fr : List Rat) (s : Store) (i : Nat) (p : Rat),
+    keys.Nodup → keys[i]? = some (ib, ic) → fr[i]? = some p → getFactor (assign s keys fr) ib ic = p := by
+  intro keys
+  induction keys with
+  | nil => intro fr s i p _ hk _; simp at hk
+  | cons k ks ih =>
+    intro fr s i p hnd hk hp
+    cases fr with
+    | nil => simp at hp
+    | cons q qs =>
+      simp only [assign]
+      have hnd' := List.nodup_cons.mp hnd
+      cases i with
+      | zero =>
+        simp at hk hp
+        subst hk; subst hp
+        rw [getFactor_assign_not_listed ib ic ks qs _ hnd'.1, getFactor_cons_eq]
+      | succ j =>
+        simp only [List.getElem?_cons_succ] at hk hp
+        exact ih qs ((k, q) :: s) j p hnd'.2 hk hp
+
+/-- for a listed component the result does not depend on what the store held before -/
+private theorem getFactor_assign_indep (ib ic : Nat) : ∀ (keys : List Key) (fr : List Rat) (s s' : Store),
+    keys.length = fr.length → (ib, ic) ∈ keys →
+    getFactor (assign s keys fr) ib ic = getFactor (assign s' keys fr) ib ic := by
+  intro keys
+  induction keys with
+  | nil => intro fr s s' _ hk; simp at hk
+  | cons k ks ih =>
+    intro fr s s' hl hk
+    cases fr with
+    | nil => simp at hl
+    | cons q qs =>
+      simp only [assign]
+      by_cases hin : (ib, ic) ∈ ks
+      · exact ih qs _ _ (by simpa using hl) hin
+      · have hk' : k = (ib, ic) := by
+          rcases List.mem_cons.mp hk with h | h
+          · exact h.symm
+          · exact absurd h hin
+        subst hk'
+        rw [getFactor_assign_not_listed ib ic ks qs _ hin, getFactor_assign_not_listed ib ic ks qs _ hin,
+          getFactor_cons_eq, getFactor_cons_eq]
+
+/-- **re-used store = fresh store**: when every component the call does NOT list has the stored factor 1
+(never listed, or last prescribed exactly 1.0), the factors in force after the call are those of a fresh
+`ExpansionData` given the same call. -/
+theorem reuse_factors_eq_fresh (s : Store) (keys : List Key) (fr : List Rat) (hl : keys.length = fr.length)
+    (h1 : ∀ ib ic, (ib, ic) ∉ keys → getFactor s ib ic = 1) :
+    ∀ ib ic, getFactor (assign s keys fr) ib ic = getFactor (assign [] keys fr) ib ic := by
+  intro ib ic
+  by_cases hin : (ib, ic) ∈ keys
+  · exact getFactor_assign_indep ib ic keys fr s [] hl hin
+  · rw [getFactor_assign_not_listed ib ic keys fr s hin, getFactor_assign_not_listed ib ic keys fr [] hin, h1 ib ic hin]
+    rfl
+
+/-- ... hence the step itself gives the same assembly through both routes -/
+theorem stepReuse_eq_stepFresh (L : Links) (st : RState) (step : List Key × List Rat)
+    (h1 : ∀ ib ic, (ib, ic) ∉ step.1 → getFactor st.store ib ic = 1) :
+    (stepReuse L st step).map (·.a) = stepFresh L st.a step := by
+  unfold stepReuse stepFresh
+  by_cases hl : step.1.length ≠ step.2.length
+  · simp [setExpansionFactors, hl]
+  · by_cases hp : (step.2.any fun p => decide (p ≤ 0)) = true
+    · simp [setExpansionFactors, hl, hp]
+    · have hl' : step.1.length = step.2.length := not_not.mp hl
+      have hp' : (step.2.any fun p => decide (p ≤ 0)) = false := Bool.eq_false_iff.mpr hp
+      have hset : ∀ s : Store, setExpansionFactors s step.1 step.2 = some (assign s step.1 step.2) := by
+        intro s; simp [setExpansionFactors, hl', hp']
+      have hinp : inpOf L (assign st.store step.1 step.2) = inpOf L (assign [] step.1 step.2) := by
+        unfold inpOf
+        congr 1
+        funext ib ic
+        exact reuse_factors_eq_fresh st.store step.1 step.2 hl' h1 ib ic
+      rw [hset, hset]
+      simp only [hinp]
+      cases expand (inpOf L (assign [] step.1 step.2)) st.a <;> rfl
+
+/-- every stored factor is positive -/
+def StorePos (s : Store) : Prop := ∀ e ∈ s, 0 < e.2
+
+private theorem mem_assign : ∀ (keys : List Key) (fr : List Rat) (s : Store) (e : Key × Rat),
+    e ∈ assign s keys fr → e ∈ s ∨ e.2 ∈ fr := by
+  intro keys
+  induction keys with
+  | nil => intro fr s e h; left; simpa [assign] using h
+  | cons k ks ih =>
+    intro fr s e h
+    cases fr with
+    | nil => left; simpa [assign] using h
+    | cons q qs =>
+      simp only [assign] at h
+      rcases ih qs _ e h with h' | h'
+      · rcases List.mem_cons.mp h' with h'' | h''
+        · right; subst h''; simp
+        · left; exact h''
+      · right; exact List.mem_cons_of_mem _ h'
+
+/-- `setExpansionFactors` keeps the store positive (its validation refuses everything else) -/
+theorem storePos_set (s s' : Store) (keys : List Key) (fr : List Rat) (hs : StorePos s)
+    (h : setExpansionFactors s keys fr = some s') : StorePos s' := by
+  unfold setExpansionFactors at h
+  by_cases hl : keys.length ≠ fr.length
+  · simp [hl] at h
+  · by_cases hp : (fr.any fun p => decide (p ≤ 0)) = true
+    · simp [hl, hp] at h
+    · simp only [hl, hp, if_false] at h
+      have hs' : s' = assign s keys fr := (Option.some.inj h).symm
+      subst hs'
+      intro e he
+      rcases mem_assign keys fr s e he with h' | h'
+      · exact hs e h'
+      · have : ¬ e.2 ≤ 0 := by
+          intro hle
+          apply hp
+          exact List.any_eq_true.mpr ⟨e.2, h', by simpa using hle⟩
+        exact not_le.mp this
+
+/-- ... so every factor `axiallyExpandAssembly` reads is positive (no division by zero) -/
+theorem getFactor_pos (s : Store) (hs : StorePos s) (ib ic : Nat) : 0 < getFactor s ib ic := by
+  unfold getFactor
+  cases hf : s.find? (fun e => e.1 == (ib, ic)) with
+  | none => simp
+  | some e => exact hs e (List.mem_of_find?_eq_some hf)
+
+theorem factorsOK_of_storePos (L : Links) (s : Store) (hs : StorePos s) : ∀ (a : List Block) (ib : Nat),
+    factorsOK (inpOf L s) ib a = true
+  | [], _ => rfl
+  | [_], _ => rfl
+  | b :: b2 :: rest, ib => by
+    simp only [factorsOK, Bool.and_eq_true, List.all_eq_true]
+    refine ⟨?_, factorsOK_of_storePos L s hs (b2 :: rest) (ib + 1)⟩
+    intro i _
+    exact decide_eq_true (getFactor_pos s hs ib i)
+
+private theorem hasTargetsS_congr (i1 i2 : Inp) (h : i1.target = i2.target) : ∀ (l : List Nat) (ib : Nat),
+    HasTargetsS i1 ib l → HasTargetsS i2 ib l
+  | [], _, _ => trivial
+  | [_], _, _ => trivial
+  | n :: m :: rest, ib, hT => by
+    obtain ⟨⟨k, hk, hkn⟩, hT'⟩ := hT
+    exact ⟨⟨k, by rw [← h]; exact hk, hkn⟩, hasTargetsS_congr i1 i2 h (m :: rest) (ib + 1) hT'⟩
+
+/-- what one successful step of the re-use route is -/
+theorem stepReuse_some (L : Links) (st st' : RState) (step : List Key × List Rat) (h : stepReuse L st step = some st') :
+    setExpansionFactors st.store step.1 step.2 = some st'.store ∧
+    st'.a = expandFrom (inpOf L st'.store) none 0 st.a ∧ ∀ b ∈ st'.a, 0 ≤ b.h := by
+  unfold stepReuse at h
+  cases hs : setExpansionFactors st.store step.1 step.2 with
+  | none => simp [hs] at h
+  | some s =>
+    simp only [hs] at h
+    unfold expand at h
+    by_cases hf : factorsOK (inpOf L s) 0 st.a = true
+    · simp only [hf, if_true] at h
+      by_cases hn : ((expandFrom (inpOf L s) none 0 st.a).any fun b => decide (b.h < 0)) = true
+      · simp [hn] at h
+      · simp only [hn] at h
+        have := (Option.some.inj h).symm
+        subst this
+        refine ⟨rfl, rfl, ?_⟩
+        intro b hb
+        by_contra hlt
+        apply hn
+        exact List.any_eq_true.mpr ⟨b, hb, by simpa using not_le.mp hlt⟩
+    · simp [hf] at h
+
+/-- **any number of successive steps on one `ExpansionData`, any prescriptions** (any listed subsets, any
+positive factors, exactly 1.0 included): whenever the steps go through, the top of the assembly has not
+moved, the blocks are contiguous with `height = ztop − zbottom`, the first bottom is where it was, no height
+is negative, and the store is positive. -/
+theorem runReuse_invariants (L : Links) : ∀ (steps : List (List Key × List Rat)) (st st' : RState),
+    runReuse L st steps = some st' → StorePos st.store →
+    HasTargetsS (inpOf L []) 0 (shape st.a) → Stacked st.a →
+    topZ st'.a = topZ st.a ∧ shape st'.a = shape st.a ∧ Stacked st'.a ∧
+      st'.a.head?.map (·.zb) = st.a.head?.map (·.zb) ∧ StorePos st'.store ∧ (steps ≠ [] → ∀ b ∈ st'.a, 0 ≤ b.h)
+  | [], st, st', h, hs, _, hst => by
+    simp only [runReuse] at h
+    have := (Option.some.inj h).symm
+    subst this
+    exact ⟨rfl, rfl, hst, rfl, hs, fun h => absurd rfl h⟩
+  | step :: rest, st, st', h, hs, hT, hst => by
+    simp only [runReuse] at h
+    cases h1 : stepReuse L st step with
+    | none => simp [h1] at h
+    | some st1 =>
+      simp only [h1] at h
+      obtain ⟨e1, e2, e3⟩ := stepReuse_some L st st1 step h1
+      have hs1 : StorePos st1.store := storePos_set _ _ _ _ hs e1
+      have hT1 : HasTargets (inpOf L st1.store) st.a := hasTargetsS_congr (inpOf L []) (inpOf L st1.store) rfl _ _ hT
+      obtain ⟨c1, c2⟩ := contiguous (inpOf L st1.store) st.a hT1
+      have hsh : shape st1.a = shape st.a := by rw [e2, shape_expandFrom]
+      have htop : topZ st1.a = topZ st.a := by rw [e2, height_preserved_step]
+      obtain ⟨r1, r2, r3, r4, r5, r6⟩ := runReuse_invariants L rest st1 st' h hs1 (by rw [hsh]; exact hT) (by rw [e2]; exact c1)
+      refine ⟨by rw [r1, htop], by rw [r2, hsh], r3, by rw [r4, e2, c2], r5, ?_⟩
+      intro _
+      cases rest with
+      | nil =>
+        simp only [runReuse] at h
+        have := (Option.some.inj h).symm
+        subst this
+        exact e3
+      | cons s2 r => exact r6 (by simp)
+
+/-- along a history every step leaves no doubt about what it prescribes: each component it does not list has
+the stored factor 1 (it was never listed, or it was last prescribed exactly 1.0) -/
+def Unambiguous : Store → List (List Key × List Rat) → Prop
+  | _, [] => True
+  | s, step :: rest =>
+    (∀ ib ic, (ib, ic) ∉ step.1 → getFactor s ib ic = 1) ∧
+      Unambiguous ((setExpansionFactors s step.1 step.2).getD s) rest
+
+/-- **one `ExpansionData` for all steps and a fresh one per step give the same assemblies, step after step,
+for every history** whose steps are unambiguous (and the same refusals). -/
+theorem runReuse_eq_runFresh (L : Links) : ∀ (steps : List (List Key × List Rat)) (st : RState),
+    Unambiguous st.store steps → (runReuse L st steps).map (·.a) = runFresh L st.a steps
+  | [], st, _ => rfl
+  | step :: rest, st, hu => by
+    obtain ⟨h1, h2⟩ := hu
+    have hstep := stepReuse_eq_stepFresh L st step h1
+    simp only [runReuse, runFresh]
+    cases hr : stepReuse L st step with
+    | none =>
+      rw [hr] at hstep
+      simp only [Option.map_none] at hstep
+      rw [← hstep]; rfl
+    | some st1 =>
+      rw [hr] at hstep
+      simp only [Option.map_some] at hstep
+      rw [← hstep]
+      simp only []
+      obtain ⟨e1, _, _⟩ := stepReuse_some L st st1 step hr
+      rw [e1] at h2
+      exact runReuse_eq_runFresh L rest st1 h2
+
+/-- non-vacuity: grow, hold (exactly 1.0), shrink back for component (0,0) is an unambiguous history -/
+example : Unambiguous [] [([(0, 0)], [11/10]), ([(0, 0)], [1]), ([(0, 0)], [10/11])] := by
+  have hne : ∀ ib ic : Nat, (ib, ic) ∉ [((0 : Nat), (0 : Nat))] → ((0 : Nat), (0 : Nat)) ≠ (ib, ic) := by
+    intro ib ic h e; exact h (by simp [← e])
+  have e1 : (setExpansionFactors [] [((0 : Nat), (0 : Nat))] [(11/10 : Rat)]).getD [] = [((0, 0), 11/10)] := by
+    decide +kernel
+  have e2 : (setExpansionFactors [(((0 : Nat), (0 : Nat)), (11/10 : Rat))] [(0, 0)] [1]).getD [((0, 0), 11/10)]
+      = [((0, 0), 1), ((0, 0), 11/10)] := by decide +kernel
+  refine ⟨fun _ _ _ => rfl, ?_⟩
+  show Unambiguous ((setExpansionFactors [] [((0 : Nat), (0 : Nat))] [(11/10 : Rat)]).getD []) _
+  rw [e1]
+  refine ⟨fun ib ic h => ?_, ?_⟩
+  · rw [getFactor_cons_ne _ _ _ ib ic (hne ib ic h)]; rfl
+  show Unambiguous ((setExpansionFactors [(((0 : Nat), (0 : Nat)), (11/10 : Rat))] [(0, 0)] [1]).getD [((0, 0), 11/10)]) _
+  rw [e2]
+  refine ⟨fun ib ic h => ?_, trivial⟩
+  rw [getFactor_cons_ne _ _ _ ib ic (hne ib ic h), getFactor_cons_ne _ _ _ ib ic (hne ib ic h)]; rfl
+
+/-- the stores the successive calls leave behind -/
+def storesOf : Store → List (List Key × List Rat) → List Store
+  | _, [] => []
+  | s, step :: rest =>
+    let s' := (setExpansionFactors s step.1 step.2).getD s
+    s' :: storesOf s' rest
+
+/-- the re-use route is the sequence of expansions whose factors are read from the successive stores -/
+theorem runReuse_eq_expandSeq (L : Links) : ∀ (steps : List (List Key × List Rat)) (st st' : RState),
+    runReuse L st steps = some st' → st'.a = expandSeq ((storesOf st.store steps).map (inpOf L)) st.a
+  | [], st, st', h => by
+    simp only [runReuse] at h
+    have := (Option.some.inj h).symm
+    subst this; rfl
+  | step :: rest, st, st', h => by
+    simp only [runReuse] at h
+    cases h1 : stepReuse L st step with
+    | none => simp [h1] at h
+    | some st1 =>
+      simp only [h1] at h
+      obtain ⟨e1, e2, _⟩ := stepReuse_some L st st1 step h1
+      have ih := runReuse_eq_expandSeq L rest st1 st' h
+      simp only [storesOf, e1, Option.getD_some, List.map_cons, expandSeq, List.foldl_cons]
+      rw [ih, e2]; rfl
+
+/-- non-vacuity / the scenario itself: one store, the steps `g = 11/10`, `1`, `10/11` for component (0,0) of
+a two-block assembly: the factor in force in the second step is exactly 1 although 11/10 was stored before,
+and the closed sequence restores the state. -/
+example :
+    (runReuse ⟨fun _ _ => none, fun ib => if ib = 0 then some 0 else none⟩
+        ⟨[], [⟨10, 0, 10, [⟨1, 1, 0, 0, 0⟩]⟩, ⟨5, 10, 15, []⟩]⟩
+        [([(0, 0)], [11/10]), ([(0, 0)], [1]), ([(0, 0)], [10/11])]).map (fun st => (st.a.map (·.h), getFactor st.store 0 0))
+      = some ([10, 5], 10/11) := by decide +kernel
+
+example : getFactor (assign [((0, 0), (11/10 : Rat))] [(0, 0)] [1]) 0 0 = 1 := by decide +kernel
+
+
+/-! ### the block-average temperature of `updateComponentTempsBy1DTempField` -/
+
+private theorem tempsInBlock_mem (zb zt : Rat) : ∀ (grid field : List Rat) (t : Rat),
+    t ∈ tempsInBlock zb zt grid field → t ∈ field
+  | [], _, t, h => by simp [tempsInBlock] at h
+  | _ :: _, [], t, h => by simp [tempsInBlock] at h
+  | z :: zs, f :: fs, t, h => by
+    simp only [tempsInBlock] at h
+    have hhere : ∀ x, x ∈ (if zb ≤ z ∧ z ≤ zt then [f] else []) → x = f := by
+      intro x hx; split at hx <;> simp at hx; exact hx
+    split at h
+    · exact List.mem_cons.mpr (Or.inl (hhere t h))
+    · rcases List.mem_append.mp h with h' | h'
+      · exact List.mem_cons.mpr (Or.inl (hhere t h'))
+      · exact List.mem_cons_of_mem _ (tempsInBlock_mem zb zt zs fs t h')
+
+private theorem sum_const (T : Rat) : ∀ (l : List Rat), (∀ t ∈ l, t = T) → l.sum = l.length * T
+  | [], _ => by simp
+  | x :: xs, h => by
+    have hx : x = T := h x List.mem_cons_self
+    have ih := sum_const T xs (fun t ht => h t (List.mem_cons_of_mem _ ht))
+    simp only [List.sum_cons, List.length_cons, ih, hx]
+    push_cast; ring
+
+/-- **a constant temperature field gives every block that temperature** (whatever the grid: the block
+average is a mean of field values; where no grid point falls into the block the call is refused) -/
+theorem blockAveTemp_const (zb zt T x : Rat) (grid field : List Rat) (hf : ∀ t ∈ field, t = T)
+    (h : blockAveTemp zb zt grid field = some x) : x = T := by
+  unfold blockAveTemp at h
+  have hall : ∀ t ∈ tempsInBlock zb zt grid field, t = T := fun t ht => hf t (tempsInBlock_mem zb zt grid field t ht)
+  cases hl : tempsInBlock zb zt grid field with
+  | nil => simp [hl] at h
+  | cons y ys =>
+    rw [hl] at h hall
+    simp only at h
+    have hx := (Option.some.inj h).symm
+    rw [hx, sum_const T (y :: ys) hall]
+    have : ((y :: ys).length : Rat) ≠ 0 := by simp; positivity
+    field_simp
+
+example : blockAveTemp 0 10 [0, 5, 10, 15] [400, 400, 400, 400] = some 400 := by decide +kernel
+example : blockAveTemp 0 10 [11, 12] [400, 400] = none := by decide +kernel
+
+
+/-! ### the top block absorbs the change BY POSITION, whatever it contains; densities over any sequence -/
+
+/-- **the last block is the absorbing one whatever it contains** (fluid only, fluid + solids, solids linked
+or not to the block below, a designated target or none) and whatever factors / targets are prescribed for
+it: its contents are left as they are, its top stays, its bottom is the top of the block below (or its own
+bottom if it is alone) and its height is `ztop − zbottom`. -/
+theorem top_block_by_position (inp : Inp) (a : List Block) (n : Nat) (t : Block) (hn : a.length = n + 1)
+    (ht : a[n]? = some t) :
+    ∃ t', (expandFrom inp none 0 a)[n]? = some t' ∧ t'.comps = t.comps ∧ t'.zt = t.zt ∧ t'.h = t'.zt - t'.zb ∧
+      t'.zb = (if n = 0 then t.zb else ((expandFrom inp none 0 a)[n - 1]?.map (·.zt)).getD t.zb) := by
+  have hg := expandFrom_top inp a none 0 n hn
+  rw [ht] at hg
+  simp only [Option.map_some] at hg
+  refine ⟨_, hg, ?_, (topBlock_spec _ t).1, (topBlock_spec _ t).2.2, ?_⟩
+  · unfold topBlock; rfl
+  · rw [(topBlock_spec _ t).2.1]
+    by_cases h0 : n = 0
+    · simp [h0, blockBottom]
+    · simp only [h0, if_false]
+      have hlt : n - 1 < (expandFrom inp none 0 a).length := by rw [expandFrom_length]; omega
+      obtain ⟨l, hl⟩ : ∃ l, (expandFrom inp none 0 a)[n - 1]? = some l := ⟨_, List.getElem?_eq_getElem hlt⟩
+      simp [hl, blockBottom]
+
+/-- product over the steps of `1 / g` for component `k` of block `i` -/
+def invProd (inps : List Inp) (i k : Nat) : Rat := inps.foldr (fun p acc => (1 / p.g i k) * acc) 1
+
+private theorem step_density (inp : Inp) (a : List Block) (i : Nat) (b : Block) (hi : i + 1 < a.length)
+    (hb : a[i]? = some b) :
+    ∃ b', (expandFrom inp none 0 a)[i]? = some b' ∧ ∀ (k : Nat) (c : Comp), b.comps[k]? = some c →
+      ∃ c', b'.comps[k]? = some c' ∧ c'.nd = c.nd * (1 / inp.g i k) ∧ c'.area = c.area := by
+  have hg := expandFrom_get inp a none 0 i hi
+  rw [hb] at hg
+  simp only [Option.map_some, Nat.zero_add] at hg
+  generalize (if i = 0 then none else (expandFrom inp none 0 a)[i - 1]?) = bel at hg
+  refine ⟨_, hg, ?_⟩
+  intro k c hc
+  exact ⟨expandComp b.h bel (inp.g i k) (inp.lower i k) c, by rw [stepBlock_comp_get, hc]; rfl, rfl, rfl⟩
+
+/-- **the density of every solid component below the top block is divided by its growth fraction in every
+step** — any sequence, any (per-component) factors, any linkage, any targets, no hypothesis. -/
+theorem density_seq_scaled : ∀ (inps : List Inp) (a : List Block) (i : Nat) (b : Block), i + 1 < a.length → a[i]? = some b →
+    ∃ b', (expandSeq inps a)[i]? = some b' ∧ ∀ (k : Nat) (c : Comp), b.comps[k]? = some c →
+      ∃ c', b'.comps[k]? = some c' ∧ c'.nd = c.nd * invProd inps i k ∧ c'.area = c.area
+  | [], a, i, b, _, hb => ⟨b, hb, fun k c hc => ⟨c, hc, by simp [invProd], rfl⟩⟩
+  | p :: t, a, i, b, hi, hb => by
+    obtain ⟨b1, g1, g2⟩ := step_density p a i b hi hb
+    obtain ⟨b', k1, k2⟩ := density_seq_scaled t (expandFrom p none 0 a) i b1 (by rw [expandFrom_length]; exact hi) g1
+    refine ⟨b', by simpa [expandSeq] using k1, ?_⟩
+    intro k c hc
+    obtain ⟨c1, e1, e2, e3⟩ := g2 k c hc
+    obtain ⟨c', f1, f2, f3⟩ := k2 k c1 e1
+    refine ⟨c', f1, ?_, by rw [f3, e3]⟩
+    have : invProd (p :: t) i k = (1 / p.g i k) * invProd t i k := rfl
+    rw [f2, e2, this]; ring
+
+/-- **any closed sequence restores every density**: when the factors a component received multiply to 1
+(g, 1, 1/g; out and back along a temperature path; ...), its number density is what it was — also where
+block heights are not restored (components stacked on non-target components). -/
+theorem closed_sequence_restores_densities (inps : List Inp) (a : List Block) (i : Nat) (b : Block)
+    (hi : i + 1 < a.length) (hb : a[i]? = some b) (k : Nat) (c : Comp) (hc : b.comps[k]? = some c)
+    (hclosed : invProd inps i k = 1) :
+    ∃ b' c', (expandSeq inps a)[i]? = some b' ∧ b'.comps[k]? = some c' ∧ c'.nd = c.nd ∧ c'.area = c.area := by
+  obtain ⟨b', h1, h2⟩ := density_seq_scaled inps a i b hi hb
+  obtain ⟨c', e1, e2, e3⟩ := h2 k c hc
+  exact ⟨b', c', h1, e1, by rw [e2, hclosed, mul_one], e3⟩
+
+/-- non-vacuity: the F9 assembly (whose block 1 does not return to its height) through `f9Inp` and back -/
+example : invProd [f9Inp, { f9Inp with g := fun ib ic => 1 / f9Inp.g ib ic }] 1 1 = 1 := by decide +kernel
+
+example : ∃ t', (expandFrom f9Inp none 0 f9Assembly)[2]? = some t' ∧ t'.comps = [⟨3, 1, 0, 0, 0⟩] ∧ t'.zt = 25 :=
+  ⟨_, rfl, by decide +kernel, by decide +kernel⟩
+
+
+/-! ### thermal factors -/
+
+private theorem lookup_cons_eq (l : List (Key × Rat)) (k : Key) (v : Rat) : lookup ((k, v) :: l) k = some v := by
+  simp [lookup]
+
+private theorem lookup_cons_ne (l : List (Key × Rat)) (k k' : Key) (v : Rat) (h : k ≠ k') :
+    lookup ((k, v) :: l) k' = lookup l k' := by
+  have : (k == k') = false := by simpa using h
+  simp [lookup, List.find?_cons, this]
+
+/-- **after `updateComponentTemp(c, T)` the material is asked for the expansion between the component's
+previous temperature and `T`** — whatever that previous temperature is (exactly 0.0 included) -/
+theorem factorSpec_after_update (th : Thermal) (k : Key) (T : Rat) (h : th.fromInput = false) :
+    factorSpec (updateComponentTemp th k T) k = .between ((lookup th.temp k).getD 0) T := by
+  simp [factorSpec, updateComponentTemp, h, lookup_cons_eq]
+
+/-- ... or, with `expandFromTinputToThot`, for the expansion from the input temperature to `T` -/
+theorem factorSpec_after_update_fromInput (th : Thermal) (k : Key) (T : Rat) (h : th.fromInput = true) :
+    factorSpec (updateComponentTemp th k T) k = .fromInputTo T := by
+  simp [factorSpec, updateComponentTemp, h, lookup_cons_eq]
+
+/-- updating one component's temperature does not touch any other component's factor -/
+theorem factorSpec_frame (th : Thermal) (k k' : Key) (T : Rat) (h : k ≠ k') :
+    factorSpec (updateComponentTemp th k T) k' = factorSpec th k' := by
+  simp [factorSpec, updateComponentTemp, lookup_cons_ne _ k k' _ h]
+
+/-- a component whose temperature was never updated keeps the factor 1.0 -/
+theorem factorSpec_untouched (th : Thermal) (k : Key) (h : th.fromInput = false) (hr : lookup th.ref k = none) :
+    factorSpec th k = .one := by
+  simp [factorSpec, h, hr]
+
+/-- **out and back**: heating a component from its temperature `T0` to `T1` and back to `T0` gives two factors
+whose product is 1 for every material whose expansion between two temperatures is the inverse of the
+expansion back (`hf`; property C03's) — with `closed_sequence_restores_densities` the density returns. -/
+theorem thermal_out_and_back (f : Key → Rat → Rat → Rat) (tin : Key → Rat) (th : Thermal) (k : Key) (T0 T1 : Rat)
+    (h : th.fromInput = false) (h0 : lookup th.temp k = some T0) (hf : ∀ a b, f k a b * f k b a = 1) :
+    let th1 := updateComponentTemp th k T1
+    let th2 := updateComponentTemp th1 k T0
+    evalSpec f tin k (factorSpec th1 k) * evalSpec f tin k (factorSpec th2 k) = 1 := by
+  have h1 : (updateComponentTemp th k T1).fromInput = false := h
+  have e1 := factorSpec_after_update th k T1 h
+  have e2 := factorSpec_after_update (updateComponentTemp th k T1) k T0 h1
+  have ht : lookup (updateComponentTemp th k T1).temp k = some T1 := lookup_cons_eq _ _ _
+  simp only [e1, e2, h0, ht, Option.getD_some, evalSpec]
+  exact hf T0 T1
+
+example : factorSpec (updateComponentTemp ⟨false, [], [((0, 0), 0)]⟩ (0, 0) 100) (0, 0) = .between 0 100 := by
+  decide +kernel
+
 end ArmiVerif.AxialExp
